@@ -314,6 +314,38 @@ def end_to_end(ctx: Ctx, rec: Recorder) -> None:
                 if n != 2:
                     rec.fail({"kw": kw, "scheme": scheme, "via": "e2e"}, "e2e-connection-sharing", {"kw": kw, "dials": n}, f"{kw}: requests v1,v1,v2,v1 used {n} sockets (expected 2: one per setting)")
                 pm.clear()
+            # the pool is also observed where urlopen() picks it: a look-up with per-call overrides, then plain
+            # request() calls under the manager's own (different) settings, in both orders of first use
+            for order in ("override-connects-first", "manager-connects-first"):
+                for lookup in ("url", "host", "context"):
+                    rec.case(["e2e-urlopen", kw, scheme, order, lookup])
+                    with netsim.Net(Srv()) as net:
+                        pm = urllib3.PoolManager(**{kw: v1})
+                        url = f"{scheme}://e2e.test/x"
+                        if lookup == "url":
+                            o = pm.connection_from_url(url, pool_kwargs={kw: v2})
+                        elif lookup == "host":
+                            o = pm.connection_from_host("e2e.test", None, scheme, pool_kwargs={kw: v2})
+                        else:
+                            c = pm._merge_pool_kwargs({kw: v2})
+                            c.update(scheme=scheme, host="e2e.test", port={"http": 80, "https": 443}[scheme])
+                            o = pm.connection_from_context(c)
+                        try:
+                            if order == "override-connects-first":
+                                o.request("GET", "/x").release_conn()
+                            pm.request("GET", url).release_conn()
+                            pm.request("GET", url).release_conn()
+                            o.request("GET", "/x").release_conn()
+                            pm.request("GET", url).release_conn()
+                        except Exception as e:  # noqa: BLE001
+                            rec.count("e2e_urlopen_request_failed_" + type(e).__name__)
+                            pm.clear()
+                            continue
+                        rec.mon("e2e_urlopen_dials")
+                        n = len(net.dials)
+                        if n != 2:
+                            rec.fail({"kw": kw, "scheme": scheme, "via": "e2e-urlopen", "order": order, "lookup": lookup}, "e2e-connection-sharing", {"kw": kw, "dials": n, "via": "urlopen"}, f"{kw}: a pool looked up with {kw}={v2!r} and request() under the manager's {kw}={v1!r} used {n} sockets (expected 2: one per setting)")
+                        pm.clear()
 
 
 def context_state_not_identity(ctx: Ctx, rec: Recorder) -> None:
